@@ -53,6 +53,22 @@ pub struct Rep {
     pub sink: Sink,
     /// bounds supplied at run time through configure() under with_ctx
     pub cfg: bool,
+    /// bounds taken from the CONTEXT value (C15): 0 = no; with n = ctx_num(ctx):
+    /// 1 = configure(exactly(n)), 2 = configure(at_least(lo).at_most(n)),
+    /// 3 = try_configure(Err(custom) if n is odd, else exactly(n))
+    #[serde(default)]
+    pub ctxb: u8,
+}
+
+/// number carried by a context value: its first token if that is an ASCII digit, else the number of
+/// tokens it contains (mod 5)
+pub fn ctx_num(v: &Val) -> usize {
+    let mut t = Vec::new();
+    v.tokens(&mut t);
+    match t.first() {
+        Some(c) if c.is_ascii_digit() => *c as usize - '0' as usize,
+        _ => t.len() % 5,
+    }
 }
 
 #[derive(Clone, Debug, PartialEq, Eq, Hash, Serialize, Deserialize)]
@@ -318,7 +334,7 @@ impl G {
             | Wrapped(a, _) | Rec(_, a) | StPush(a, _) | StObs(a) | WithState(a, _)
             | WithCtx(a, _) | MapCtx(a, _) | CxObs(a) | Track(a, _) | Lazy(a) => a.must_consume(),
             Rep(r) => {
-                let base = !r.cfg && r.lo >= 1;
+                let base = !r.cfg && r.ctxb == 0 && r.lo >= 1;
                 match &r.sink {
                     Sink::Foldl(g) | Sink::Foldr(g) | Sink::FoldlWith(g) | Sink::FoldrWith(g) => {
                         base || g.must_consume()
@@ -417,7 +433,13 @@ pub fn render(g: &G) -> String {
                 (0, Some(h)) => format!("at_most({})", h),
                 (l, Some(h)) => format!("at_least({}).at_most({})", l, h),
             };
-            if !bounds.is_empty() {
+            match x.ctxb {
+                1 => s += ".configure(|c,ctx| c.exactly(num(ctx)))",
+                2 => s += &format!(".configure(|c,ctx| c.at_least({}).at_most(num(ctx)))", x.lo),
+                3 => s += ".try_configure(|c,ctx,_| if odd(num(ctx)) Err else c.exactly(num(ctx)))",
+                _ => {}
+            }
+            if !bounds.is_empty() && x.ctxb == 0 {
                 if x.cfg {
                     s += &format!(".configure(|c,_| c.{})", bounds)
                 } else {
@@ -541,6 +563,9 @@ pub fn wf(g: &G) -> bool {
                     }
                 }
                 if r.cfg && (r.sep.is_some() || matches!(r.sink, Sink::Str)) {
+                    return false;
+                }
+                if r.ctxb > 3 || r.ctxb != 0 && (r.cfg || r.sep.is_some() || matches!(r.sink, Sink::Str | Sink::Exactly(_))) {
                     return false;
                 }
                 let mut gd = guarded;
@@ -691,6 +716,7 @@ fn simpler_node(g: &G) -> Vec<G> {
             push(&|r| r.lo = r.lo.saturating_sub(1));
             push(&|r| r.hi = r.hi.map(|h| h.saturating_sub(1)));
             push(&|r| r.cfg = false);
+            push(&|r| r.ctxb = 0);
             push(&|r| r.sink = Sink::Vec);
         }
         Validate(a, t, n) if *n > 1 => out.push(Validate(a.clone(), *t, 1)),
